@@ -982,7 +982,13 @@ class GraphParser:
                     name, offset, TASK_OUTPUT_SUCCEEDED,
                     self.__class__.OP_OR,
                     name, offset, TASK_OUTPUT_FAILED)
-                expr = expr.replace(this, that)
+                # (Not str.replace: "foo:finished" is also found at the end
+                # of "xfoo:finished" or "a-foo:finished".)
+                expr = re.sub(
+                    r'(?<![\w\-+%@])' + re.escape(this) + r'(?![\w\-])',
+                    lambda _: that,
+                    expr
+                )
                 trigs += [
                     "%s%s:%s" % (name, offset, TASK_OUTPUT_SUCCEEDED),
                     "%s%s:%s" % (name, offset, TASK_OUTPUT_FAILED)]
